@@ -27,7 +27,10 @@ SIM_SCENARIO(scen_c20, "c20", "C20", 6000000, 30000) {
         p.how = (int)sim::draw(4, "how"); p.delay = (int)sim::draw(60, "delay"); p.nested = (int)sim::draw(3, "nested") == 0 ? 1 : 0; p.points = (int)sim::draw(6, "points");
         s += hx::fmt(" [how=%d delay=%d nested=%d]", p.how, p.delay, p.nested);
     }
-    d.add(hx::fmt("resumable tasks=%d arena=%d pfor=%d:%s", ntasks, conc, (int)use_pfor, s.c_str()));
+    // the enclosing group may live inside this_task_arena::isolate: the waiting thread then takes only tasks of its own
+    // isolation scope, but resume tasks must reach it all the same
+    bool iso = sim::draw(3, "isolate") == 0;
+    d.add(hx::fmt("resumable tasks=%d arena=%d pfor=%d isolate=%d:%s", ntasks, conc, (int)use_pfor, (int)iso, s.c_str()));
     d.publish();
     std::vector<SP> sps((size_t)ntasks * 2);
     int other_units = 0, finished_tasks = 0;
@@ -81,7 +84,8 @@ SIM_SCENARIO(scen_c20, "c20", "C20", 6000000, 30000) {
         wait_returned = true;
         tgp = nullptr;
     };
-    if (conc) { tbb::task_arena a(conc); a.execute(run); } else run();
+    auto run_iso = [&] { if (iso) tbb::this_task_arena::isolate(run); else run(); };
+    if (conc) { tbb::task_arena a(conc); a.execute(run_iso); } else run_iso();
     SIM_CHECK(finished_tasks == ntasks, "oracle:wait-incomplete", "the enclosing wait returned with %d of %d suspended tasks finished", finished_tasks, ntasks);
     for (int t = 0; t < ntasks; ++t) {
         SIM_CHECK(sps[(size_t)t * 2].continued == 1, "oracle:never-resumed", "suspend point %d continued %d times", t * 2, sps[(size_t)t * 2].continued);
